@@ -84,31 +84,40 @@ def run_plan(prop, machine, plan, base_seed, jobs, stage_dir, allocfault="", dea
         findings = known.load()
     for backend in plan["backends"]:
         subs = [s for s in plan["subs"] if backend in s.get("backends", plan["backends"])]
-        if not subs:
-            continue
-        extra_env = plan.get("env", {}).get(backend)
-        p = pool.Pool(stage_dir, backend, jobs, allocfault=allocfault, hashseed=hashseed, extra_env=extra_env)
-        try:
-            for sub in subs:
-                m = sub.get("machine", machine)
-                cfg = dict(sub["cfg"])
-                if want_digests:
-                    cfg["digests"] = True
-                sub2 = dict(sub)
-                sub2["cfg"] = cfg
-                tasks = make_tasks(prop, backend, sub2, base_seed)
-                nviol = [0]
+        envs = []
+        for s_ in subs:
+            e = json.dumps(s_.get("env") or {}, sort_keys=True)
+            if e not in envs:
+                envs.append(e)
+        for e in envs:
+            group = [s_ for s_ in subs if json.dumps(s_.get("env") or {}, sort_keys=True) == e]
+            p = pool.Pool(stage_dir, backend, jobs, allocfault=allocfault, hashseed=hashseed, extra_env=json.loads(e) or None)
+            try:
+                for sub in group:
+                    if deadline is not None and time.monotonic() > deadline:
+                        continue
+                    m = sub.get("machine", machine)
+                    cfg = dict(sub["cfg"])
+                    if want_digests:
+                        cfg["digests"] = True
+                    sub2 = dict(sub)
+                    sub2["cfg"] = cfg
+                    tasks = make_tasks(prop, backend, sub2, base_seed)
+                    nviol = [0]
 
-                def on_result(i, r, _sub=sub["name"], _be=backend):
-                    agg.add(_sub, _be, r)
-                    for ent in r["violations"]:
-                        if any(not known.match(prop, v, findings) for v in ent["violations"]):
-                            nviol[0] += 1
-                    return nviol[0] >= stop_on_violation and stop_on_violation > 0
+                    def on_result(i, r, _sub=sub["name"], _be=backend):
+                        agg.add(_sub, _be, r)
+                        for ent in r["violations"]:
+                            if any(not known.match(prop, v, findings) for v in ent["violations"]):
+                                nviol[0] += 1
+                        return nviol[0] >= stop_on_violation and stop_on_violation > 0
 
-                p.map(m, "batch", tasks, on_result=on_result, deadline=deadline)
-        finally:
-            p.close()
+                    sub_deadline = deadline
+                    if sub.get("share") and deadline is not None:
+                        sub_deadline = min(deadline, time.monotonic() + sub["share"])
+                    p.map(m, "batch", tasks, on_result=on_result, deadline=sub_deadline)
+            finally:
+                p.close()
     return agg
 
 
